@@ -601,6 +601,14 @@ func (fr *Frame) instr(ins ssa.Instruction, st *State, reach Term) *State {
 	case *ssa.MakeSlice:
 		return fr.makeSlice(i, st, reach)
 	case *ssa.Convert:
+		if kindOf(i.X.Type()) == KStr && kindOf(i.Type()) == KSlice {
+			// []rune(s) / []byte(s) allocate
+			ref := st.nxt
+			st = st.withNxt(fr.bumpNxt(st.nxt))
+			fr.v.knownNonNil[ref] = true
+			fr.vals[i] = fr.v.strToSliceAt(fr, fr.value(i.X), i.Type(), st, ref)
+			return st
+		}
 		fr.vals[i] = fr.convert(i, fr.value(i.X), i.X.Type(), i.Type(), st, reach)
 		return st
 	case *ssa.ChangeType:
